@@ -95,7 +95,7 @@ def run(ctx):
     for i in range(ctx.n(200)):
         g = io_graph(rng)
         nops = rng.randrange(0, 5 if ctx.tier == "quick" else 7)
-        ops = [rng.choice(["infer", "infer", "dict_rt", "file_rt"]) for _ in range(nops)]
+        ops = [rng.choice(["infer", "infer", "dict_rt", "file_rt", "to_dict_refused", "write_refused"]) for _ in range(nops)]
         case = {"op": "graph", "graph": g, "ops": ops}
         ctx.case(case)
         ctx.count("histories"); ctx.count("ops_total", len(ops))
